@@ -468,15 +468,24 @@ func TestC13Confinement(t *testing.T) {
 	os.WriteFile(filepath.Join(base, "outer", "sibling", "secret"), []byte("CANARY-sibling"), 0o644)
 	os.WriteFile(filepath.Join(base, "outer", "secret"), []byte("CANARY-parent"), 0o644)
 	os.WriteFile(filepath.Join(base, "secret"), []byte("CANARY-grandparent"), 0o644)
+	// siblings whose NAME extends the backend directory's name (a confinement
+	// check by string prefix would let them through)
+	for _, sib := range []string{"backend-backup", "backend2", "backend.old", "backendx/deep"} {
+		os.MkdirAll(filepath.Join(base, "outer", sib), 0o755)
+		os.WriteFile(filepath.Join(base, "outer", sib, "secret"), []byte("CANARY-"+sib), 0o644)
+		os.WriteFile(filepath.Join(base, "outer", sib, "checkpoint"), []byte("CANARY-checkpoint-"+sib), 0o644)
+	}
 	b, err := ctlog.NewLocalBackend(context.Background(), dir, discardLogger)
 	if err != nil {
 		t.Fatal(err)
 	}
 	keys := []string{"..", "../secret", "../sibling/secret", "../../secret", "a/../../secret", "a/../../sibling/new", "tile/../../secret", "/etc/passwd", base + "/secret", "//secret", "a//b",
 		"a/./b", ".", "", "a/", "a\x00b", "..\\secret", "a\\..\\..\\secret", "tile/0/..", "tile/0/../..", "tile/0/../../../secret", "./../secret", "....//secret", "%2e%2e/secret",
+		"../backend-backup/secret", "../backend-backup/checkpoint", "../backend2/secret", "../backend.old/checkpoint", "../backendx/deep/secret", "tile/../../backend-backup/checkpoint",
+		"a/b/../../../backend2/new-object", "../backend-backup/new-object", "../backend", "../backend/x",
 		"link/secret", "link/new", "link/../secret", strings.Repeat("a/", 150) + "x", strings.Repeat("x", 5000), "CON", "nul", "a/../b", "ok/normal/key"}
 	for i := 0; i < pick(100, 2000); i++ {
-		parts := []string{"..", ".", "a", "", "link", "secret", "sibling", "x\x00", "..\\", "tile"}
+		parts := []string{"..", ".", "a", "", "link", "secret", "sibling", "x\x00", "..\\", "tile", "backend-backup", "backend2", "checkpoint"}
 		var k []string
 		for j := 0; j < 1+rng.Intn(5); j++ {
 			k = append(k, pickOne(rng, parts))
